@@ -1,6 +1,8 @@
 import DoraModel.Bytecode.Lemmas
 import DoraModel.Bytecode.WriterLemmas
 import DoraModel.Bytecode.BincodeLemmas
+import DoraModel.Bytecode.SchemaLemmas
+import DoraModel.Gen.PkgTypes
 /-!
 # C18 — Packages and bytecode survive being written and read back
 
@@ -133,8 +135,7 @@ example : ((({} : Writer).defineLabel.1).emitJumpLoop 0).isSome = true := by dec
 /-! ## "A compiled package file decodes to a program equal to the one that was encoded": the wire format
 
 bincode 2.0.1, `config::standard()`. Each primitive and each combinator used by the derived codecs round-trips,
-whatever follows in the input. (The composition over the whole `Program` type tree is not modelled — see the
-evidence file; the real derive-generated codec is exercised on real packages by the check.) -/
+whatever follows in the input; `pkg_roundtrip` at the end composes them over the whole `Program` type tree. -/
 
 open Dora.Bincode in
 /-- varint `u16` / `u32` / `u64` (`usize` is encoded as `u64`): ≤ 250 one byte, then markers 251/252/253 -/
@@ -189,5 +190,45 @@ open Dora.Bincode in
 example : decVec (decOpt decU32) (encVec (encOpt encVarU) [some 300, none] ++ []) = some ([some 300, none], []) :=
   (bincode_combinators_roundtrip (encOpt encVarU) (decOpt decU32) _ encVarU decU32 _
     (rt_opt encVarU decU32 _ rt_u32) rt_u32).1 [some 300, none] [] (by decide)
+
+
+/-! ### the whole `Program` type tree
+
+`Dora.Bincode.pkgEnv` is the table of every `#[derive(Encode, Decode)]` item reachable from `Program` (32 items,
+plus `Id<T>`, tuples, `Vec`/`Option`/`Box`/`Arc` instances), regenerated from program.rs / data.rs / ty.rs / opcode.rs
+on every run; `decT` / `encT` interpret such a table the way bincode_derive lays structs and enums out. -/
+
+open Dora.Bincode in
+/-- The derive-shaped codec round-trips for EVERY type table, every type in it and every value of that type
+    (numbers in the range of their Rust type, strings valid UTF-8, nesting depth ≤ `fuel`), whatever follows. -/
+theorem derive_codec_roundtrip (env : Env) (fuel t : Nat) (v : PVal) (rest : Bytes) (h : wfT env fuel t v = true) :
+    decT env fuel t (encT env fuel t v ++ rest) = some (v, rest) :=
+  schema_roundtrip env fuel t v rest h
+
+open Dora.Bincode in
+/-- "A compiled package file decodes to a program equal to the one that was encoded": for the type table of
+    `Program` as the sources define it now, decoding the encoding of any program gives back that program and
+    stops exactly behind it. -/
+theorem pkg_roundtrip (fuel : Nat) (p : PVal) (rest : Bytes) (h : wfT pkgEnv fuel pkgRoot p = true) :
+    decT pkgEnv fuel pkgRoot (encT pkgEnv fuel pkgRoot p ++ rest) = some (p, rest) :=
+  schema_roundtrip pkgEnv fuel pkgRoot p rest h
+
+open Dora.Bincode in
+example : wfT pkgEnv pkgExampleFuel pkgRoot pkgExample = true := by decide +kernel
+
+open Dora.Bincode in
+example : decT pkgEnv pkgExampleFuel pkgRoot (encT pkgEnv pkgExampleFuel pkgRoot pkgExample ++ [1, 2]) = some (pkgExample, [1, 2]) :=
+  pkg_roundtrip _ _ _ (by decide +kernel)
+
+open Dora.Bincode in
+/-- … and compositionally for every component type of the tree (any table index: `FunctionData`, `BytecodeBody`,
+    `ConstPoolEntry`, `BytecodeType`, …). -/
+theorem pkg_component_roundtrip (fuel t : Nat) (v : PVal) (rest : Bytes) (h : wfT pkgEnv fuel t v = true) :
+    decT pkgEnv fuel t (encT pkgEnv fuel t v ++ rest) = some (v, rest) :=
+  schema_roundtrip pkgEnv fuel t v rest h
+
+open Dora.Bincode in
+example : decT pkgEnv pkgExampleFuel pkgRoot (encT pkgEnv pkgExampleFuel pkgRoot pkgExample ++ []) = some (pkgExample, []) :=
+  pkg_component_roundtrip pkgExampleFuel pkgRoot pkgExample [] (by decide +kernel)
 
 end Dora.Bytecode.C18
